@@ -1,17 +1,22 @@
 (* C06 correspondence: the engine evaluator (Run/RunEng.v) on histories whose dry-run flags
    arrive as SPELLINGS (the DryRun boolean and the DryRunOption string of the real action
    struct): the model decides with its own transcription [is_dry_run] whether the operation is
-   a dry run.  Cases that use features outside the model (crds/, CreateNamespace, post-renderer,
-   flags the model does not have) carry [c6_in_model = false] and are checked by the runtime
-   oracle only. *)
+   a dry run.  Cases that use features outside the shared model (crds/, CreateNamespace,
+   post-renderer, flags it does not have, helm template) carry [c6_in_model = false] and, when
+   they are inside the richer model of Engine/DryOps.v, a [rich_case] that Run/RunC06Rich.v
+   evaluates (ordered event trace, outcome, ledger, objects, CRDs). *)
 From Helm Require Export Run.RunEng.
 From Coq Require Import List String Bool Arith.
 From Helm Require Import Engine.Types Engine.Ops Engine.Seq Engine.DryRun.
+From Helm Require Import Engine.DryOps Run.RunC06Rich.
 Import ListNotations.
 
 Record spelling := mkSp { sp_step : nat; sp_bool : bool; sp_opt : string }.
 
-Record c06case := mkC06 { c6_in_model : bool; c6_sp : list spelling; c6_case : RunEng.case }.
+(* [c6_rich]: wide / template cases (crds/, CreateNamespace, post-renderer, lookups, the wider
+   flag set, helm template) are evaluated by the richer model of Engine/DryOps.v *)
+Record c06case := mkC06 { c6_in_model : bool; c6_sp : list spelling; c6_case : RunEng.case;
+                          c6_rich : option rich_case }.
 
 Definition dry_of (sps : list spelling) (i : nat) : option bool :=
   match find (fun s => Nat.eqb (sp_step s) i) sps with
@@ -34,7 +39,8 @@ Definition respelled (c : c06case) : RunEng.case :=
   mkCase (c_init (c6_case c)) (respell (c6_sp c) 0 (c_steps (c6_case c))) (c_obs (c6_case c)).
 
 Definition case_ok6 (c : c06case) : bool :=
-  negb (c6_in_model c) || RunEng.case_ok (respelled c).
+  (negb (c6_in_model c) || RunEng.case_ok (respelled c))
+  && match c6_rich c with Some r => rich_ok r | None => true end.
 
 Fixpoint mismatches6_from (i : nat) (cs : list c06case) : list nat :=
   match cs with
@@ -49,3 +55,5 @@ Definition mismatches := mismatches6_from 0.
 (* debugging *)
 Definition model_view6 (c : c06case) := RunEng.model_view (respelled c).
 Definition diag6 (c : c06case) := RunEng.diag (respelled c).
+Definition rich_diag6 (c : c06case) := match c6_rich c with Some r => Some (rich_diag r) | None => None end.
+Definition rich_view6 (c : c06case) := match c6_rich c with Some r => Some (rich_view r) | None => None end.
